@@ -47,7 +47,8 @@ TRUSTED = [
 ASSUMPTIONS = [
     "programs: pure tasks with int arguments and nested-list results, no context, no File/Handle values, every job "
     "records provenance (prov=True), default cache_scope; check_valid in {full, shallow}; plus one corpus program with a "
-    "shallow parent over prov=False children (record_call_node records their Task values itself)",
+    "shallow parent over prov=False children (record_call_node records their Task values itself), and one with a failure "
+    "caught by catch_all beneath a shallow task (plain, and with the failed job served by CSE)",
     "edits are version bumps (task hash derived from `version`), reverts restore the old hash",
     "process death = loss of everything not committed; the sqlite file after the last successful commit is what "
     "the next process sees (no torn pages)",
